@@ -421,7 +421,7 @@ func genOp(rng *h.Rng, c *Case, r *Runner, name string) []string {
 		if len(looks) > 0 && (name == "fg" && rng.Chance(9, 10) || name == "sol" && rng.Chance(2, 5)) {
 			lk := looks[rng.Intn(len(looks))]
 			hh, z = lk.Hash, uint64(lk.Length)
-			if rng.Chance(1, 10) {
+			if rng.Chance(1, 10) && z+1 < 1<<32 {
 				z++
 			}
 		} else {
